@@ -798,7 +798,7 @@ Proof.
   unfold ctl_read. unfold bindM at 1. unfold assert_open. cbn [fst].
   destruct (c_opened c); [|intros E; apply pair_inj in E as [_ E]; apply pair_inj in E as [<- _]; reflexivity].
   unfold bindM at 1. unfold verify_range.
-  destruct (2 ^ 64 <? a + n); [unfold fail; intros E; apply pair_inj in E as [_ E]; apply pair_inj in E as [<- _]; reflexivity|].
+  destruct ((a <? 0) || (2 ^ 64 <? a + n)); [unfold fail; intros E; apply pair_inj in E as [_ E]; apply pair_inj in E as [<- _]; reflexivity|].
   unfold ret at 1. unfold bindM at 1. unfold get_ctl. cbn [fst].
   unfold bindM at 1. unfold lift at 1.
   destruct (read_chunks_init a 0 (c_max_ack c));
